@@ -57,16 +57,16 @@ def selftest(chk, trace, events):
 
 
 def c13(chk, opts):
-    expect = {"c2u": 52, "u2c": 52, "ctext": 52, "cparts": 52, "cparse": 1 + 128 + 2 * 128 * 128, "rank": 13, "suit": 4,
+    expect = {"c2u": 52, "u2c": 52, "ctext": 52, "cparts": 52, "cparse": (1 + 128 + 2 * 128 * 128,), "rank": 13, "suit": 4,
               "rchar": 128, "schar": 128, "cmp": 169 + 16 + 2704, "range": 4 * 91 + 2 * 10 + 2}
     return _common(chk, opts, "c13", expect,
                    "complete finite table: 52 cards x (word, text, parts), all 16,513 ASCII strings of length <= 2 as a card, "
-                   "all ASCII characters as rank/suit, all ordered pairs of ranks/suits/cards compared, every rank/suit range "
+                   "each two-character string again after one card text, and after every one of the 52 card texts (differences logged), all ASCII characters as rank/suit, all ordered pairs of ranks/suits/cards compared, every rank/suit range "
                    "with start <= end; one event per call, distinct by construction")
 
 
 def c14(chk, opts):
-    return _common(chk, opts, "c14", {"pair": 2652, "twin": 1872, "route": (7000,), "text2": (2652,), "cpar": (0,), "cparsum": 1},
+    return _common(chk, opts, "c14", {"pair": 2652, "twin": 1872, "route": (7000,), "text2": (2652,), "cpar": (0,), "cparsum": 2},
                    "all 52 x 51 ordered pairs of distinct cards: construction in both orders, equality, two hashers, "
                    "canonical order, text, parse of both textual orders, map insertion; for the 1,872 pairs of different rank and suit: the text, "
                    "its suit-swapped twin and the text again parsed back to back; every pair value obtained through RankPair::into_iter (both "
